@@ -384,7 +384,8 @@ def run(ctx, rep):
     produced = {}
     for ch, tbs in tested.items():
         for tb in tbs:
-            for p_ in AbsInt(F, dec, {}, max_paths=64, loop_bound=1).run(tb):
+            # what THIS step of the loop produces for the character (a step that only notes the backslash produces nothing)
+            for p_ in AbsInt(F, dec, {}, stop_blocks={h_ for h_, bd_ in dec.natural_loops()}, max_paths=64, loop_bound=1).run(tb):
                 psh = [c_ for c_ in p_.calls if c_[1].endswith('String::push') and len(c_[2]) == 2]
                 if psh:
                     v_ = uncast(psh[0][2][1])
